@@ -5,6 +5,7 @@ import (
 	"context"
 
 	"verifmc/vrt"
+	"verifmc/vrt/vctx"
 	"verifmc/vrt/vsync"
 )
 
@@ -16,7 +17,7 @@ type Group struct {
 }
 
 func WithContext(ctx context.Context) (*Group, context.Context) {
-	ctx, cancel := context.WithCancel(ctx)
+	ctx, cancel := vctx.WithCancel(ctx)
 	return &Group{cancel: cancel}, ctx
 }
 
